@@ -14,6 +14,9 @@ import (
 
 	"github.com/openfga/language/pkg/go/graph"
 	"github.com/openfga/language/pkg/go/transformer"
+
+	"verif/internal/ev"
+	"verif/internal/g4"
 )
 
 // Child mode: the test binary re-executes itself with VERIF_CHILD set, reads one request on stdin,
@@ -43,6 +46,9 @@ func TestMain(m *testing.M) {
 		childMain()
 		return
 	}
+	// the harness's own lexing (self-checks, derivability oracle) uses the lexer pinned with the grammar as long as
+	// OpenFGALexer.g4 is unchanged, see g4.LexTypes
+	g4.UsePinnedLexerFor(ev.Repo())
 	os.Exit(m.Run())
 }
 
